@@ -207,10 +207,22 @@ func init() {
 		return v
 	}
 	ifaceModels["context.Context.Done"] = func(e *Engine, st *State, fr *Frame, recv Val, args []Val, resT types.Type, pos token.Pos, ins ssa.Instruction) Val {
-		used(e, "context.Context.Done/Err/Deadline: total, no effect")
-		return e.freshResult(st, "done", resT)
+		used(e, "context.Context.Done/Err/Deadline: total, no effect; once a receive from Done() has succeeded on a path, Err() of that context is non-nil")
+		ch := e.freshResult(st, "done", resT)
+		if st.doneChan == nil {
+			st.doneChan = map[string]string{}
+		}
+		st.doneChan[ch.S] = recv.S
+		return ch
 	}
-	ifaceModels["context.Context.Err"] = ifaceModels["context.Context.Done"]
+	ifaceModels["context.Context.Err"] = func(e *Engine, st *State, fr *Frame, recv Val, args []Val, resT types.Type, pos token.Pos, ins ssa.Instruction) Val {
+		used(e, "context.Context.Done/Err/Deadline: total, no effect; once a receive from Done() has succeeded on a path, Err() of that context is non-nil")
+		v := e.freshResult(st, "ctxerr", resT)
+		if st.ctxDone[recv.S] {
+			st.assume(not(eq(ifTyp(v.S), "0")))
+		}
+		return v
+	}
 	ifaceModels["context.Context.Deadline"] = ifaceModels["context.Context.Done"]
 	ifaceModels["error.Error"] = func(e *Engine, st *State, fr *Frame, recv Val, args []Val, resT types.Type, pos token.Pos, ins ssa.Instruction) Val {
 		used(e, "error.Error: total, no effect")
